@@ -702,6 +702,9 @@ struct Res { std::map<EM, int> err, warn; std::string exc, what; bool have = fal
 
 static double t_validate = 0, t_inject = 0, t_build = 0;
 
+static std::vector<EM> msub(const std::map<EM, int> &a, const std::map<EM, int> &b);
+static std::string show(const std::vector<EM> &v, size_t max);
+
 static Res run_validate(const std::string &path) {
     Res r;
     double t0 = vf::wall();
@@ -710,6 +713,26 @@ static Res run_validate(const std::string &path) {
         valid::Result v = f.validate();
         for (auto &m : v.getErrors()) r.err[EM(m.id, m.msg)]++;
         for (auto &m : v.getWarnings()) r.warn[EM(m.id, m.msg)]++;
+        // the same verdict asked entity by entity (valid::validate(block), valid::validate(array), valid::validate(dimension), ...): what the
+        // file-level validator reports about an entity and what the entity's own validator reports must be the same errors
+        std::map<EM, int> ent;
+        auto take = [&](const valid::Result &er) { for (auto &m : er.getErrors()) ent[EM(m.id, m.msg)]++; };
+        for (auto &b : f.blocks()) {
+            take(valid::validate(b));
+            for (auto &a : b.dataArrays()) { take(valid::validate(a)); for (auto &d : a.dimensions()) {
+                if (d.dimensionType() == DimensionType::Range) take(valid::validate(d.asRangeDimension()));
+                else if (d.dimensionType() == DimensionType::Set) take(valid::validate(d.asSetDimension()));
+                else if (d.dimensionType() == DimensionType::Sample) take(valid::validate(d.asSampledDimension())); } }
+            for (auto &m : b.multiTags()) { take(valid::validate(m)); for (auto &ft : m.features()) take(valid::validate(ft)); }
+            for (auto &t : b.tags()) { take(valid::validate(t)); for (auto &ft : t.features()) take(valid::validate(ft)); }
+            for (auto &sc : b.findSources()) take(valid::validate(sc));
+        }
+        for (auto &sec : f.findSections()) { take(valid::validate(sec)); for (auto &p : sec.properties()) take(valid::validate(p)); }
+        vf::count("entity_level_validations");
+        std::vector<EM> only_file = msub(r.err, ent), only_ent = msub(ent, r.err);
+        if (!only_file.empty() || !only_ent.empty())
+            vf::violation(std::string("C19|File::validate against the entities' own validate()|errors differ|") + (only_ent.empty() ? "file level reports more" : "an entity's validate() reports an error that File::validate lacks"),
+                          "only at file level: " + show(only_file, 6) + "; only at entity level: " + show(only_ent, 6));
         f.close();
     }, &r.what);
     r.have = true;
@@ -728,13 +751,14 @@ static std::vector<EM> msub(const std::map<EM, int> &a, const std::map<EM, int> 
     return d;
 }
 
-static std::string show(const std::vector<EM> &v, size_t max = 6) {
+static std::string show(const std::vector<EM> &v, size_t max) {
     std::string s = "[";
     for (size_t i = 0; i < v.size() && i < max; i++) s += std::string(i ? "; " : "") + v[i].first + ": " + v[i].second;
     if (v.size() > max) s += "; ... (" + std::to_string(v.size()) + ")";
     return s + "]";
 }
-static std::string show(const std::map<EM, int> &m) { return show(msub(m, std::map<EM, int>())); }
+static std::string show(const std::vector<EM> &v) { return show(v, 6); }
+static std::string show(const std::map<EM, int> &m) { return show(msub(m, std::map<EM, int>()), 6); }
 
 // ------------------------------------------------------------------------------------------------------------------
 // one generated file with its cache of results
